@@ -118,10 +118,11 @@ NOT_A_CLASS = 5
 class NeedsW(Base):
     """A subclass with a required constructor parameter."""
 
-    def __init__(self, w: int, t: float = 0.5):
+    def __init__(self, w: int, t: float = 0.5, hidden_size: int = 3):
         self.w = w
         self.t = t
-        LOG.append((type(self).__name__, dict(w=w, t=t), self))
+        self.hidden_size = hidden_size
+        LOG.append((type(self).__name__, dict(w=w, t=t, hidden_size=hidden_size), self))
 
 
 @dataclass
@@ -146,3 +147,9 @@ class G2:
 class G2Class:
     def __init__(self, flag: bool = False, name: str = "n", inner: Inner = Inner()):
         self.flag, self.name, self.inner = flag, name, inner
+
+
+@dataclass
+class Named:
+    size_total: int = 1
+    label: str = "l"
